@@ -539,6 +539,9 @@ func (t *thread) checkHashTypeEncoding(shf sighash.Flag) error {
 		if sigHashType < sighash.All || sigHashType > sighash.Single {
 			return errs.NewError(errs.ErrInvalidSigHashType, "invalid hash type 0x%x", shf)
 		}
+		if t.hasFlag(scriptflag.EnableSighashForkID) {
+			return errs.NewError(errs.ErrIllegalForkID, "fork id sighash not set with flag")
+		}
 		return nil
 	}
 
